@@ -203,10 +203,7 @@ def write_if_changed(path, text):
 def main():
     repo, outdir = sys.argv[1], sys.argv[2]
     try:
-        try:
-            import t1_more  # noqa: F401  (registers further generators)
-        except ImportError:
-            pass
+        import t1_more  # noqa: F401  (registers further generators)
         text = gen_tables(repo)
     except (Unsupported, SyntaxError, OSError) as ex:
         print("T1 FAIL-CLOSED: %s" % ex)
@@ -218,4 +215,5 @@ def main():
 
 if __name__ == "__main__":
     sys.path.insert(0, os.path.dirname(os.path.abspath(__file__)))
-    sys.exit(main())
+    import t1_tables  # run through the imported module so that t1_more shares its state
+    sys.exit(t1_tables.main())
